@@ -218,6 +218,39 @@ def _rolled_back(ctx, f, t):
     return False
 
 
+def _prevalidation_in_callers_missing(ctx, engine, f, names):
+    """the validation calls live in the callers of the helper f: in every function that calls f, each named validation
+    call occurs in a statement that dominates (or structurally precedes) the call of f and comes before that caller's
+    first change"""
+    sites = ctx.callers().get(f.qual, [])
+    if not sites:
+        return 'the helper %s has no caller left' % f.name
+    ranges = tuple(sorted(set(norm(l.iter) for l in ctx.own_nodes(f) if isinstance(l, ast.For))))
+    for caller, c in sites:
+        g = ctx.cfg(caller)
+        dom = g.dominators()
+        t = ctx.enclosing_stmt(caller, c.node)
+        tn = g.node_of(t)
+        late = set()
+        for key, roots, origin in engine.summ.get(caller.qual, (None, ()))[1]:
+            if roots and origin is not None and origin[0] == caller.qual:
+                late.add(origin[3])
+        for name in names:
+            ok = False
+            for n in ctx.own_nodes(caller):
+                if isinstance(n, ast.Call) and ((isinstance(n.func, ast.Attribute) and n.func.attr == name) or (isinstance(n.func, ast.Name) and n.func.id == name)):
+                    st = ctx.enclosing_stmt(caller, n)
+                    sn = g.node_of(st)
+                    if st is t or sn is None or tn is None or st.lineno in late:
+                        continue
+                    if sn.id in dom.get(tn.id, ()) or _runs_whenever(ctx, caller, st, t, ranges):
+                        ok = True
+            if not ok:
+                return '%s calls %s (line %d) without a call of %s that precedes it on every path and comes before its first change' % (
+                    caller.qual, f.name, c.node.lineno, name)
+    return None
+
+
 def _prevalidation_missing(ctx, engine, f, canon_stmt, names, rolled_back=False):
     """None if every named validation call occurs in a statement of f that dominates the refusing statement and is
     not itself preceded by a persistent write; otherwise a description of what is missing."""
@@ -267,7 +300,14 @@ QUERY_TWINS = {
 }
 
 
-def _runs_whenever(ctx, f, v, t):
+def _narrowing_fact(fact):
+    """a normalised fact (text, polarity) that says `<attribute chain> is not None`"""
+    import re
+    txt, pol = fact
+    return pol is False and bool(re.match(r'^[A-Za-z_]\w*(\.[A-Za-z_]\w*)+ is None$', txt))
+
+
+def _runs_whenever(ctx, f, v, t, same_range=()):
     """structural form of "v has been executed whenever t executes": v sits in a chain of ifs whose tests (with
     polarity) are all among the conditions that hold at t, and the outermost statement of that chain precedes, in
     one block, the statement that holds t"""
@@ -284,8 +324,14 @@ def _runs_whenever(ctx, f, v, t):
             out.append(p)
         return out
     cv, ct = chain(v), chain(t)
-    if any(isinstance(x, (ast.For, ast.While, ast.Try, ast.With)) for x in cv[1:]):
-        return False
+    for x in cv[1:]:
+        if isinstance(x, ast.For) and norm(x.iter) in same_range and not x.orelse and \
+                not any(isinstance(y, (ast.Break, ast.Continue, ast.Return)) for st in x.body for y in ast.walk(st)):
+            # a loop over the very collection the later statement loops over: it asks for every member the later one
+            # acts on (and for none if there is none)
+            continue
+        if isinstance(x, (ast.For, ast.While, ast.Try, ast.With)):
+            return False
     vf = set()
     for test, pol, _at in ex.conditions(ctx, f, v, True):
         for a, b in ex.conjuncts(test, pol):
@@ -294,8 +340,15 @@ def _runs_whenever(ctx, f, v, t):
     for test, pol, _at in ex.conditions(ctx, f, t, False):
         for a, b in ex.conjuncts(test, pol):
             tf.add(_normfact(a, b))
-    if not vf <= tf:
+    # conditions of v that t does not have are tolerated when they only narrow an Optional (`self.joliet_vd is not None`,
+    # `rec.ptr is not None` as further conjuncts of a test that t shares): where they fail, the later statement runs into
+    # the library's own "cannot happen" assertion, which this family treats as unreachable
+    extra = vf - tf
+    if extra and not (vf & tf):
         return False
+    for fact in extra:
+        if not _narrowing_fact(fact):
+            return False
     # common block: the innermost block that holds an ancestor-or-self of both
     for av in cv:
         pb = par.get(id(av))
@@ -618,7 +671,10 @@ def vbmrule(ctx):
                 continue
         if ent is not None and f is not None:
             used_preval.add(key)
-            missing = _prevalidation_missing(ctx, e, f, k[1], ent['validated_by'], ent.get('rolled_back', False))
+            if ent.get('validated_in_callers'):
+                missing = _prevalidation_in_callers_missing(ctx, e, f, ent['validated_by'])
+            else:
+                missing = _prevalidation_missing(ctx, e, f, k[1], ent['validated_by'], ent.get('rolled_back', False))
             obs.append(Ob('SA-VBM', key, not missing, ctx.loc(f, f.node),
                           ('pre-validated: %s' % ent['reason']) if not missing else
                           'in %s, `%s` can refuse after `%s` changed persistent state; the refusals were made unreachable by resolving the same destination up front '
